@@ -48,6 +48,9 @@
 ; the driver only branches on it.
 ; sig ip_unspec(bytes, int) bool
 (declare-fun ip_unspec ((Array (_ BitVec 64) (_ BitVec 8)) (_ BitVec 64) (_ BitVec 64)) Bool)
+; net.IP.String: the text of an address is a function of its bytes
+; sig ip_str(bytes, int) string
+(declare-fun ip_str ((Array (_ BitVec 64) (_ BitVec 8)) (_ BitVec 64) (_ BitVec 64)) Str)
 
 ;; block mm3
 ; Cassandra org.apache.cassandra.utils.MurmurHash.hash3_x64_128 (seed 0), first word.
